@@ -127,6 +127,12 @@ pub fn run(tier: Tier, seed: u64) -> i32 {
     if !rep.failed() {
         let mut fvols: Vec<VolCfg> = [1usize, 3, 8, 12].iter().map(|p| VolCfg::from_preset(*p)).collect();
         fvols.push(VolCfg::from_gen_preset(5));
+        // storage that splits transfers: a fault can hit the continuation of a table / directory field
+        for (p, sh) in [(1usize, 9u8), (8, 33)] {
+            let mut v = VolCfg::from_preset(p);
+            v.short_io = sh;
+            fvols.push(v);
+        }
         if tier == Tier::Thorough {
             fvols.push(VolCfg::from_preset(5));
             fvols.push(VolCfg::from_preset(13));
